@@ -44,7 +44,7 @@ BoolOpt == {"T", "F"}
 Opt == {"T", "F", "N"}
 
 \* 1. shape of the tree x one rule x trimming / nesting (clash groups inside one rule)
-Fam1(Trees) == {Scn(tr, FALSE, FALSE, <<PC(Mk(<<p>>, 0), n, t)>>) : tr \in Trees, p \in Protos1, n \in {"T", "N"}, t \in {"T", "N"}}
+Fam1(Trees, Ns) == {Scn(tr, FALSE, FALSE, <<PC(Mk(<<p>>, 0), n, t)>>) : tr \in Trees, p \in Protos1, n \in Ns, t \in {"T", "N"}}
 
 \* 2. conflicts: overlapping rules and repeated population with every mix of effective options
 Lists2 == {<<P(RD, {})>>, <<P(RD, {}), P(RD, {"txt"})>>, <<P(RD, {"txt"}), P(RD, {})>>, <<P(RD, {}), P(DS, {})>>,
@@ -76,7 +76,7 @@ TreesQ == {Tree(F, {}) : F \in UpTo(FileU, 2)} \cup RichTrees
 TreesC == {Tree(F, {}) : F \in UpTo(DFiles, 3) \ {{}}}
 
 \* Scenarios is a *sequence* of families: TLC's union of two enumerated sets is quadratic in their size
-Sc_quick == <<Fam1(TreesQ), Fam2a(TreesC, Lists2), Fam2b(TreesC, Lists2, Adds2), Fam3a(2), Fam3b(2), Fam4a, Fam4b>>
+Sc_quick == <<Fam1(TreesQ, {"N"}), Fam1(TreesC \cup RichTrees, {"T"}), Fam2a(TreesC, Lists2), Fam2b(TreesC, Lists2, Adds2), Fam3a(2), Fam3b(2), Fam4a, Fam4b>>
 TreesTiny == {Tree({dxt, dxp}, {}), Tree({dxt, dyg}, {})}
 Sc_tiny == <<Fam2a(TreesTiny, Lists2), Fam2b(TreesTiny, Lists2, Adds2), Fam3a(1), Fam3b(1)>>     \* switch runs
 =============================================================================
